@@ -316,7 +316,8 @@ func (s *ProxyServer) proxyToTarget(w http.ResponseWriter, r *http.Request, pass
 	defer func() { _ = resp.Body.Close() }()
 
 	// Inject cookie if this is a write and we're not ignoring TXID tracking.
-	if !passthrough && s.isWriteRequest(r) {
+	// A path that is always forwarded is handled as a write whatever its method.
+	if !passthrough && (s.isWriteRequest(r) || s.isAlwaysForwarded(r)) {
 		if db := s.store.DB(s.DBName); db != nil {
 			pos := db.Pos()
 			s.logf("proxy: %s %s: setting txid cookie to %s", r.Method, r.URL.Path, pos.TXID.String())
